@@ -157,6 +157,11 @@ theorem uniqNamesFrom_length (taken : List String) : ∀ (names used : List Stri
 theorem uniqNames_length (taken names : List String) : (uniqNames taken names).length = names.length :=
   uniqNamesFrom_length taken names _
 
+theorem groupNamesFor_length (a b : Vsys) : (groupNamesFor a b).length = b.groups.length := by
+  unfold groupNamesFor
+  rw [uniqNamesFrom_length]
+  simp
+
 /-- **The order-relevant requests of the whole plan** are the `orderOps` of the rule script. -/
 theorem planVsys_ord (diff : Differ) (a b : Vsys) :
     (planVsys diff a b).filterMap ordOf =
@@ -270,7 +275,7 @@ theorem planState_out_kind (diff : Differ) (a b : Vsys) :
   generalize diff _ _ _ = rs
   have h0 : (markObjects (planFuel (sortVsys a) (sortVsys b))
       (initSt (sortVsys a) (sortVsys b)
-        (uniqNames ((sortVsys a).groups.map (·.name)) ((sortVsys b).groups.map (·.name))))
+        (groupNamesFor (sortVsys a) (sortVsys b)))
       (sortVsys b).rules).out = [] := by
     rw [markObjects_out]; rfl
   have h1 := rulePhase1_extR diff (planFuel (sortVsys a) (sortVsys b)) (sortVsys a) (sortVsys b) (sortVsys a).rules
@@ -278,7 +283,7 @@ theorem planState_out_kind (diff : Differ) (a b : Vsys) :
       (fun (r, n) => { r with name := n })) rs
     (markObjects (planFuel (sortVsys a) (sortVsys b))
       (initSt (sortVsys a) (sortVsys b)
-        (uniqNames ((sortVsys a).groups.map (·.name)) ((sortVsys b).groups.map (·.name))))
+        (groupNamesFor (sortVsys a) (sortVsys b)))
       (sortVsys b).rules, 0, [])
   revert h1
   generalize (rs.foldl _ _) = res
